@@ -4,6 +4,8 @@ import (
 	"fmt"
 	"time"
 
+	"github.com/omec-project/upf-epc/zzverif/vsim"
+
 	"github.com/wmnsk/go-pfcp/ie"
 	"github.com/wmnsk/go-pfcp/message"
 )
@@ -28,8 +30,14 @@ type sentReq struct {
 
 func scenarioC02(r *Run) {
 	r.Conf = DefaultBESSConf()
-	r.Conf.EnableHBTimer = r.Ch.Choose(3, "hb") == 1
+	r.Conf.EnableHBTimer = r.Ch.Choose(3, "hb") != 0
+	// short heartbeat intervals: the heartbeat monitor sends while responses are being sent
+	r.Conf.HeartBeatInterval = []string{"5s", "5s", "20ms", "8ms"}[r.Ch.Choose(4, "hbi")]
 	r.DrawStrategy()
+	if r.Conf.EnableHBTimer && r.Sim.MaxGap == 0 && r.Sim.Strat != vsim.StratPCT {
+		r.Sim.MaxGap = []int{15, 60}[r.Ch.Choose(2, "gap2")]
+		r.Sim.ArmPreempt()
+	}
 	np := 1 + r.Ch.Choose(3, "npeers")
 	for i := 0; i < np; i++ {
 		r.AddPeer()
@@ -54,7 +62,9 @@ func scenarioC02(r *Run) {
 		}
 		return p.NextSeq()
 	}
+	aim := r.Conf.EnableHBTimer && r.Ch.Choose(2, "aim") == 1
 	usedSeq := map[string]bool{}
+	hasConn := map[*Peer]bool{} // the agent holds a connected socket for this peer
 	// send performs one request, records it and returns the response.
 	send := func(p *Peer, m message.Message, kind string, copies int) *RxMsg {
 		key := fmt.Sprintf("%d/%d/%d", p.Idx, m.MessageType(), m.Sequence())
@@ -62,14 +72,27 @@ func scenarioC02(r *Run) {
 			return nil // the generator drew a (type, seq) it already used on this peer: skip
 		}
 		usedSeq[key] = true
+		if !hasConn[p] {
+			// first contact: a copy that reaches the listening socket before the
+			// connected socket exists is dropped by design; duplicates are only
+			// judged on an existing connection
+			copies = 1
+		}
 		sr := &sentReq{peer: p, typ: m.MessageType(), seq: m.Sequence(), kind: kind, count: copies}
 		sent = append(sent, sr)
+		if aim && r.Ch.Choose(2, "aim1") == 1 {
+			// arrive while the heartbeat monitor of some connection sends
+			r.AimAtTimer(30 * time.Millisecond)
+		}
 		for i := 1; i < copies; i++ {
 			p.SendMsg(m)
 		}
 		rx := p.Request(m, 8*time.Second)
 		if copies > 1 {
 			r.Sim.RunFor(50 * time.Millisecond) // let the answers to the other copies arrive
+		}
+		if rx != nil {
+			hasConn[p] = m.MessageType() != message.MsgTypeAssociationReleaseRequest
 		}
 		if rx == nil && r.AgentAlive() {
 			r.Violate("C02", "no-response:"+kind, "%s seq=%d from peer%d got no response of type %d within 8 s", kind, m.Sequence(), p.Idx, responseTypeOf(m.MessageType()))
@@ -303,7 +326,9 @@ func scenarioC02(r *Run) {
 				continue
 			}
 			m := message.NewAssociationReleaseRequest(seqFor(p), ie.NewNodeID(p.NodeID, "", ""))
-			send(p, m, "AssociationReleaseRequest", 1)
+			if send(p, m, "AssociationReleaseRequest", 1) == nil {
+				continue // not sent (sequence number already used) or unanswered
+			}
 			p.Associated = false
 			p.Sessions = map[uint64]*CPSession{}
 			r.Skel("release")
